@@ -274,6 +274,20 @@ func (c *ShipConnection) stopHandshakeTimer() {
 	c.handshakeTimerRunning = false
 }
 
+func (c *ShipConnection) setLastReceivedWaitingValue(value time.Duration) {
+	c.handshakeTimerMux.Lock()
+	defer c.handshakeTimerMux.Unlock()
+
+	c.lastReceivedWaitingValue = value
+}
+
+func (c *ShipConnection) getLastReceivedWaitingValue() time.Duration {
+	c.handshakeTimerMux.Lock()
+	defer c.handshakeTimerMux.Unlock()
+
+	return c.lastReceivedWaitingValue
+}
+
 func (c *ShipConnection) setHandshakeTimerRunning(value bool) {
 	c.handshakeTimerMux.Lock()
 	defer c.handshakeTimerMux.Unlock()
